@@ -5,12 +5,13 @@ def _load(n):
 META = {
  'functions': ['Array<int>, Array<Tracked> (Array.hpp): every public operation incl. growth/relocation, copy/move, merge-by-move, Clear/Reset/Detach',
                'String<char>, StringStream<char> (String.hpp, StringStream.hpp): every public operation of the C14 harnesses incl. Detach / GetString hand-over',
+               'HArray<String<char>, String<char>>::Insert (4 overloads), operator[], Get, Remove, copy construction, destruction (HArray.hpp, HashTable.hpp)',
                'Memory::Allocate / Deallocate / Dispose seam (Memory.hpp:160-249)'],
  'bounds': 'the host harnesses of C14 (arrays, char strings and streams) re-run with CBMC --memory-leak-check: after ONE arbitrary operation on a pre-state built through the public API '
            '(capacity <= 4, symbolic size/contents/aliasing) and destruction of every object, no allocation is live; CBMC deallocated-object / double-free / invalid-free '
            'properties cover use-after-release and foreign releases; the Tracked ledger covers construct/destroy exactly once per element',
  'outside': 'failed JSON parses and malformed templates with the REAL Value / tag arrays (real container-kind Value and the template driver are beyond reach of CBMC here); '
-            'hash arrays with owning String keys; tag-cache lifetimes',
+            'hash arrays with owning keys beyond the listed two-key histories (HArray<String,String>: insert, replace through every Insert overload / operator[] / Get, remove and re-insert, copy); tag-cache lifetimes',
  'assumptions': [],
 }
 def queries(tier):
@@ -21,4 +22,9 @@ def queries(tier):
         if q.harness == 'C14_array.cpp' or (q.harness in ('C14_string.cpp', 'C14_stream.cpp') and q.defs.get('CHAR') == 'char'):
             q2 = copy.copy(q); q2.name = 'leak/' + q.name; q2.leak = True
             qs.append(q2)
+    # hash arrays with owning String keys and values: insert / replace / remove histories, then destruction
+    HB = {'Dispose': 5, 'Copy': 12, 'Hash': 3, 'IsEqual': 6, 'find': 4, 'resize|generateHash|expand': 6, 'vf_mem.*': 120, 'Count': 3, 'SetToZero': 20, 'mk': 5, 'copyTable': 4, 'Write|write': 8}
+    for op in range(7):
+        for same in (1, 0):
+            qs.append(Query('leak/harray/op%d/same%d' % (op, same), 'C16_harray.cpp', 'h_harray', {'OP': op, 'SAME': same}, bounds=HB, default_unwind=5, leak=True, timeout=600, mem_gb=10))
     return qs
